@@ -276,7 +276,7 @@ func runFault(t fataler, test string, f faultSpec) (verdict string, nontrivial b
 					break
 				}
 				enc := root.Encode()
-				if string(enc) == string(m.Body) {
+				if string(enc) == string(m.Body) || sameValues(m.Body, enc) {
 					noop = true
 					inapplic = true
 					break
@@ -516,4 +516,55 @@ func deviatorPos(sc *scenario, d proto.ID) int {
 		}
 	}
 	return -1
+}
+
+// sameValues reports whether a mutated message differs from the original only in leaves that
+// decode to the very same value (a re-encoding, which the property does not count as an
+// alteration). The one such alias the operators can produce: the SEC1-compressed identity of
+// k256 / P-256 is written 02||0..0 and k256 also reads 03||0..0 as the identity, so flipping
+// the sign bit of an identity (e.g. the constant term of a zero-sharing's verification vector)
+// changes no value.
+func sameValues(orig, mutated []byte) bool {
+	a, err := cbormut.Parse(orig)
+	if err != nil {
+		return false
+	}
+	b, err := cbormut.Parse(mutated)
+	if err != nil {
+		return false
+	}
+	a.OpenNested()
+	b.OpenNested()
+	la, _ := cbormut.Walk(a)
+	lb, _ := cbormut.Walk(b)
+	if len(la) != len(lb) {
+		return false
+	}
+	differs := false
+	for i := range la {
+		x, y := la[i], lb[i]
+		if x.Path != y.Path || x.Node.Major != y.Node.Major {
+			return false
+		}
+		if x.Node.Val == y.Node.Val && string(x.Node.Bytes) == string(y.Node.Bytes) {
+			continue
+		}
+		differs = true
+		if !strings.HasSuffix(x.Path, "/compressedBytes") || !sec1Identity(x.Node.Bytes) || !sec1Identity(y.Node.Bytes) {
+			return false
+		}
+	}
+	return differs
+}
+
+func sec1Identity(b []byte) bool {
+	if len(b) != 33 || (b[0] != 2 && b[0] != 3) {
+		return false
+	}
+	for _, c := range b[1:] {
+		if c != 0 {
+			return false
+		}
+	}
+	return true
 }
